@@ -119,10 +119,16 @@ def run_check(prop, tier, seed, families):
     run = Run(prop, tier, seed, level)
     for family in families.split('+'):
         run_family(run, prop, tier, seed, family)
+    if prop in ('C02', 'C03', 'C08', 'C09', 'C13'):
+        # code -> spec: long random histories with large bounds, validated by TLC (spec/TraceArray.tla)
+        from .. import tracecheck
+        tracecheck.run_random(run, prop, 2000 if tier == 'thorough' else 120, 60 if tier == 'thorough' else 40, seed)
     run.cov['rule'] = ('every macro-edge (public call from a quiescent state) of the TLC state graph of spec/Array.tla '
                        'is executed on the real darr.Array from a materialised source state and the projection of the '
                        'directory, live handle and fresh handle is compared with the spec target; paths are walks of '
-                       'the same graph executed without re-materialisation')
+                       'the same graph executed without re-materialisation; in addition long random histories of the real code (up to 10 '
+                       'row ids, chunks of up to 5 rows, faults) are recorded and validated by TLC against spec/TraceArray.tla, '
+                       'with a corrupted record as a control')
     run.assumptions += ['TLC results are exhaustive only for the instance constants recorded under tlc_instances',
                         'NumPy is the reference for casting appended data to the array dtype',
                         'materialisation of a source state uses darr.asarray (checked separately by C01)']
